@@ -82,6 +82,19 @@ func (pConn *PFCPConn) handleSessionEstablishmentRequest(msg message.Message) (m
 			ie.CauseNoResourcesAvailable)
 	}
 
+	// rejectSession gives back what has been acquired for the session so far.
+	rejectSession := func(err error, cause uint8) (message.Message, error) {
+		if upf.ippool != nil {
+			// The pool is keyed by SEID; there is nothing to release if no address was allocated.
+			_ = upf.ippool.DeallocIP(session.localSEID)
+		}
+
+		releaseAllocatedFTEIDs(upf.fteidGenerator, &session)
+		pConn.RemoveSession(session)
+
+		return errProcessReply(err, cause)
+	}
+
 	addPDRs := make([]pdr, 0, MaxItems)
 	addFARs := make([]far, 0, MaxItems)
 	addQERs := make([]qer, 0, MaxItems)
@@ -89,14 +102,14 @@ func (pConn *PFCPConn) handleSessionEstablishmentRequest(msg message.Message) (m
 	for _, cPDR := range sereq.CreatePDR {
 		var p pdr
 		if err = p.parsePDR(cPDR, session.localSEID, pConn.appPFDs, upf.ippool); err != nil {
-			return errProcessReply(err, ie.CauseRequestRejected)
+			return rejectSession(err, ie.CauseRequestRejected)
 		}
 
 		if p.UPAllocateFteid {
 			var fteid uint32
 			fteid, err = pConn.upf.fteidGenerator.Allocate()
 			if err != nil {
-				return errProcessReply(err, ie.CauseNoResourcesAvailable)
+				return rejectSession(err, ie.CauseNoResourcesAvailable)
 			}
 			p.tunnelTEID = fteid
 			p.tunnelTEIDMask = 0xFFFFFFFF
@@ -112,7 +125,7 @@ func (pConn *PFCPConn) handleSessionEstablishmentRequest(msg message.Message) (m
 	for _, cFAR := range sereq.CreateFAR {
 		var f far
 		if err = f.parseFAR(cFAR, session.localSEID, upf, create); err != nil {
-			return errProcessReply(err, ie.CauseRequestRejected)
+			return rejectSession(err, ie.CauseRequestRejected)
 		}
 
 		f.fseidIP = fseidIP
@@ -123,7 +136,7 @@ func (pConn *PFCPConn) handleSessionEstablishmentRequest(msg message.Message) (m
 	for _, cQER := range sereq.CreateQER {
 		var q qer
 		if err = q.parseQER(cQER, session.localSEID); err != nil {
-			return errProcessReply(err, ie.CauseRequestRejected)
+			return rejectSession(err, ie.CauseRequestRejected)
 		}
 
 		q.fseidIP = fseidIP
@@ -147,8 +160,7 @@ func (pConn *PFCPConn) handleSessionEstablishmentRequest(msg message.Message) (m
 
 	cause := upf.SendMsgToUPF(upfMsgTypeAdd, session.PacketForwardingRules, updated)
 	if cause == ie.CauseRequestRejected {
-		pConn.RemoveSession(session)
-		return errProcessReply(ErrWriteToDatapath,
+		return rejectSession(ErrWriteToDatapath,
 			ie.CauseRequestRejected)
 	}
 
